@@ -1,5 +1,25 @@
-"""Model side of the buffer checks (Buffer.tla)."""
+"""Model side of the buffer checks: exhaustive TLC runs of specs/buffer/Buffer.tla (timed, with the
+contract monitor BufferContract composed in)."""
+
+ACTIONS = ['Submit', 'PFirst', 'PDrain', 'PGot', 'StartFunc', 'EndFunc', 'PCheck', 'Tick']
+WAITS = ['WaitCall', 'WaitJoin', 'WaitKick', 'WaitRet']
+
+PLAN = {
+    'C03': {'quick': [('BUF_3_d0', None), ('BUF_3_d3_f1', None), ('BUF_3_foreign', None), ('W_D10', 'Inv_C03')],
+            'thorough': [('BUF_3_d0', None), ('BUF_3_d3_f1', None), ('BUF_4_d3_f1', None), ('BUF_3_foreign', None),
+                         ('W_D10', 'Inv_C03')]},
+    'C07': {'quick': [('BUF_3_wT', None), ('BUF_2_wTF_f1', None), ('W_NeverFlush', 'NeverFlush')],
+            'thorough': [('BUF_3_wT', None), ('BUF_4_wT', None), ('BUF_2_wTF_f1', None), ('W_NeverFlush', 'NeverFlush')]},
+    'C08': {'quick': [('BUF_3_d0', None), ('BUF_3_d3_f1', None), ('W_NeverBurst', 'NeverBurst'), ('W_NeverTwoCalls', 'NeverTwoCalls')],
+            'thorough': [('BUF_3_d0', None), ('BUF_3_d3_f1', None), ('BUF_4_d3_f1', None), ('BUF_4_wT', None),
+                         ('W_NeverBurst', 'NeverBurst'), ('W_NeverTwoCalls', 'NeverTwoCalls')]},
+}
 
 
 def model_check(ctx):
-    pass
+    for cfg, expect in PLAN[ctx.prop][ctx.tier]:
+        if expect:
+            ctx.mc('buffer', 'MC_Buffer', cfg + '.cfg', expect_violation=expect, timeout=300)
+        else:
+            ctx.mc('buffer', 'MC_Buffer', cfg + '.cfg', timeout=1800,
+                   require_actions=ACTIONS + (WAITS if '_w' in cfg else []))
